@@ -307,4 +307,12 @@ def places (s : State) (j : Job) : Nat :=
 def unbufferedOk : Bool :=
   Consts.poolJobChannelCap == 0 && Consts.poolWorkerStopCap == 0 && Consts.poolStopCap == 0
 
+/-- The handlers that own a pool (`tcpHandler.Handle`, `udpHandler.Handle`) release it only after
+    they have waited for their outstanding invocations — in execution order, deferred calls in
+    reverse order of registration (constants regenerated from the handlers by the extractor; a
+    handler that never releases its pool satisfies this vacuously). Releasing earlier loses the
+    handlers still queued: `C19_release_loses_exactly_the_queued_jobs`. -/
+def handlersReleaseAfterDrain : Bool :=
+  Consts.poolTcpReleaseAfterDrain == 1 && Consts.poolUdpReleaseAfterDrain == 1
+
 end Tars.Pool
